@@ -15,5 +15,5 @@ ToyOut3 == SeqsUpTo({5, 7, 9}, 0, 3)
 None == {<< >>}
 MixIn == {<<5, 6>>}
 MixOut == {<<7, 5>>}
-Msgs3 == SeqsUpTo({5}, 0, 3)       \* Buffered never looks at sizes
+Msgs3 == SeqsUpTo({6}, 0, 3)       \* Buffered never looks at sizes (6: Sync, distinct serials)
 =============================================================================
